@@ -39,7 +39,7 @@ ASSUMPTIONS = [
 REQUIRED_COUNTERS = {"points_trunc": 100, "points_line_json": 30, "points_line_sqlite": 20, "points_kill": 20, "points_enospc": 10,
                      "classified_error": 50, "classified_P_or_N": 20, "states": 4}
 SHARDS = {"quick": 16, "thorough": 16}
-SHARD_WATCHDOG = {"quick": 900, "thorough": 7200}
+SHARD_WATCHDOG = {"quick": 1500, "thorough": 10800}
 
 FILES = ["calibration_params.json", "scheduler_pickled.pickle", "loss_function_pickled.pickle", "calibration_results.csv", "series_samp.h5"]
 PKINDS = ["same_run", "other_run_same_rows", "other_run_diff_rows", "none"]
